@@ -620,3 +620,67 @@ Proof.
   - destruct price_consts_val as (Hmax & _ & Hmin). rewrite Hmax, Hmin in *. tf (p <? 0) false.
     destruct H as [H|H]; [tf (p <? 10 ^ 6) true; rewrite orb_true_r|tf (p >? 10 ^ 74) true]; reflexivity.
 Qed.
+
+(** * tick -> price -> tick is the identity on the whole initialisable range (extended low range included) *)
+Lemma price_round_trip t : -30 * G <= t <= 38 * G -> calculate_price_to_tick (price_of t) = Ok t.
+Proof.
+  intros Ht. pose proof (price_of_bounds t Ht) as Hb.
+  destruct price_consts_val as (Hmax & Hminb & Hmin).
+  rewrite calculate_price_to_tick_unfold. rewrite Hmax, Hminb, Hmin.
+  set (x0 := price_of t) in *.
+  tf (x0 <? 0) false. tf (x0 >? 10 ^ 74) false. tf (x0 <? 10 ^ 6) false. cbn [orb].
+  assert (P0 : price_of 0 = P36) by (vm_compute; reflexivity).
+  destruct (x0 =? P36) eqn:E36.
+  { apply Z.eqb_eq in E36. f_equal. apply Z.le_antisymm; apply price_of_le_inv; unfold G in *; fold x0; lia. }
+  cbv zeta.
+  (* the chop is the identity on tick prices *)
+  set (x := if x0 >=? 10 ^ 24 then bd_chop_precision 18 x0 else x0).
+  assert (Ex : x = x0).
+  { subst x. destruct (x0 >=? 10 ^ 24) eqn:E; [|reflexivity]. rewrite Z.geb_leb in E. apply Z.leb_le in E.
+    assert (-12 * G <= t).
+    { apply price_of_le_inv; [unfold G; lia|lia|]. replace (price_of (-12 * G)) with (10 ^ 24) by (vm_compute; reflexivity). exact E. }
+    destruct (price_of_mult18 t H) as [k Hk]. fold x0 in Hk. unfold P18 in Hk.
+    unfold bd_chop_precision. change (36 - 18) with 18. rewrite Hk.
+    rewrite Z.quot_mul by (vm_compute; discriminate). reflexivity. }
+  rewrite Ex. clear Ex x. apply Z.eqb_neq in E36.
+  assert (Hs : exists j, (if x0 >? P36 then search_up 400 x0 0 else search_down 400 x0 (-1)) = Ok j /\
+                         -30 <= j <= 37 /\ 10 ^ (36 + j) <= x0 <= 10 ^ (37 + j)).
+  { destruct (x0 >? P36) eqn:Eg; rewrite Z.gtb_ltb in Eg.
+    - apply Z.ltb_lt in Eg.
+      destruct (search_up_spec x0 ltac:(lia) 37%nat 0 400%nat eq_refl ltac:(lia) ltac:(lia) Eg) as (j & Hj & Hr & Hb').
+      exists j. split; [exact Hj|]. split; lia.
+    - apply Z.ltb_ge in Eg.
+      destruct (search_down_spec x0 ltac:(lia) 29%nat (-1) 400%nat eq_refl ltac:(lia) ltac:(lia) Eg) as (j & Hj & Hr & Hb').
+      exists j. split; [exact Hj|]. split; lia. }
+  destruct Hs as (j & Hj & Hjr & Hjb). rewrite Hj.
+  destruct (core_spec x0 j Hjr Hjb) as (HF & ti & Hcore & Hti). cbv zeta in *. rewrite Hcore.
+  pose proof (pow10_gt0 (30 + j) ltac:(lia)) as Hinc.
+  set (inc := 10 ^ (30 + j)) in *. set (pin := x0 - 10 ^ 6 * inc) in *. set (F := pin / inc) in *.
+  (* the decade found is the tick's own decade or the one below (when the price is a power of ten) *)
+  assert (Hd : -30 <= t / G) by (apply Z.div_le_lower_bound; unfold G in *; lia).
+  assert (Hjd : j <= t / G).
+  { destruct (Z_le_gt_dec j (t / G)) as [L|L]; [exact L|exfalso].
+    pose proof (price_lt_step t ltac:(lia)) as Hl. fold x0 in Hl. unfold step in Hl.
+    assert (10 ^ 7 * 10 ^ (30 + t / G) <= 10 ^ (36 + j)).
+    { rewrite <- pow10_add by lia. apply pow10_le. lia. }
+    lia. }
+  (* so the increment divides the price *)
+  assert (Hdiv : exists q, pin = q * inc).
+  { exists ((10 ^ 6 + t mod G) * 10 ^ (t / G - j) - 10 ^ 6). subst pin x0 inc. unfold price_of.
+    replace (30 + t / G) with (t / G - j + (30 + j)) by lia. rewrite pow10_add by lia. ring. }
+  destruct Hdiv as [q Hq].
+  assert (EF : F = q) by (subst F; rewrite Hq; apply Z.div_mul; lia).
+  assert (Eti : ti = F).
+  { destruct Hti as [E|[E Hbump]]; [exact E|exfalso].
+    assert ((F + 1) * inc - pin = inc) by (rewrite EF, Hq; ring).
+    rewrite H in Hbump.
+    assert (E72 : inc * 10 ^ (42 - j) = 10 ^ 72).
+    { subst inc. rewrite <- pow10_add by lia. f_equal. lia. }
+    rewrite E72 in Hbump. revert Hbump. vm_compute. intros Hb'; apply Hb'; reflexivity. }
+  rewrite Eti. f_equal.
+  assert (Pc : price_of (G * j + F) = x0).
+  { rewrite price_of_decade by lia. fold inc. rewrite EF. subst pin. lia. }
+  assert (Hc : -30 * G <= G * j + F <= 38 * G) by (unfold G; lia).
+  replace (F + G * j) with (G * j + F) by lia.
+  apply Z.le_antisymm; apply price_of_le_inv; try assumption; fold x0; lia.
+Qed.
